@@ -1,6 +1,7 @@
 """Defines a RemoteStore, a store implementation that can connect to a remote liquer server
 via liquer server store API.
 """
+from io import BytesIO
 from liquer.store import Store, StoreException
 import requests
 
@@ -60,7 +61,6 @@ class RemoteStore(Store):
         self.on_metadata_changed(key)
 
     def store_metadata(self, key, metadata):
-        metadata = self.finalize_metadata(metadata, key=key, is_dir=False, data=data)
         self.post_json(self.concat_api("store/metadata", key), metadata)
         self.on_metadata_changed(key)
 
@@ -85,7 +85,7 @@ class RemoteStore(Store):
         self.on_removed(key)
 
     def contains(self, key):
-        res = self.fetch_json(self.concat_api("store/remove", key))
+        res = self.fetch_json(self.concat_api("store/contains", key))
         if res["status"] != "OK":
             raise StoreException(res["message"], key=key, store=self)
         return res["contains"]
@@ -109,9 +109,9 @@ class RemoteStore(Store):
         return res["listdir"]
 
     def makedir(self, key):
-        while key not in (None, ""):
-            self.directories.add(key)
-            key = self.parent_key(key)
+        res = self.fetch_json(self.concat_api("store/makedir", key))
+        if res["status"] != "OK":
+            raise StoreException(res["message"], key=key, store=self)
         self.on_data_changed(key)
         self.on_metadata_changed(key)
 
